@@ -203,29 +203,60 @@ mod proofs {
         ok
     }
 
-    // @harness id=C14 tier=quick unwind=16 timeout=3000 fs=4096
-    // @desc a BFV ciphertext round-trips exactly through the compact format (residues packed in 1, 2 and 3 bytes according to their prime) and through the full format; announced size == bytes written == bytes consumed; a second object written after it in the same stream is recovered independently
-    // @bounds BFV N=2, q={97, 12289, 65537} (byte widths 1/2/3), size 2; all canonical residues; NTT flag symbolic
-    // @funcs <Ciphertext as SerializableWithHeContext>::{serialize,deserialize,serialized_size}, Ciphertext::{serialize_full,deserialize_full,serialized_full_size}, write_u64_limited, read_u64_limited, get_u64_limit
+    // @harness id=C14 tier=quick unwind=16 timeout=2400 fs=4096
+    // @desc a BFV ciphertext round-trips exactly through the compact format (residues packed in 1, 2 and 3 bytes according to their prime); announced size == bytes written == bytes consumed; a second object written after it in the same stream is recovered independently
+    // @bounds BFV N=2, q={97, 12289, 65537} (byte widths 1/2/3), size 2; all canonical residues except the seed-flag slot (coefficient 0 of c1 mod q0, concrete 42: seeded ciphertexts need the Blake2 PRNG expansion, outside reach); NTT flag symbolic
+    // @funcs <Ciphertext as SerializableWithHeContext>::{serialize,deserialize,serialized_size}, write_u64_limited, read_u64_limited, get_u64_limit
     // @stubs HeContext::get_context_data -> linear search over the literal chain; alloc::sync::Arc::drop_slow -> no-op
     #[kani::proof]
     #[kani::stub(crate::context::HeContext::get_context_data, crate::context::verif_v::get_context_data_stub)]
     #[kani::stub(alloc::sync::Arc::drop_slow, crate::verif_v::arc_drop_slow_noop)]
-    fn c14_ciphertext_roundtrip_bfv_bytewidths() {
+    fn c14_ciphertext_roundtrip_bfv_bytewidths() { bytes_case(false) }
+
+    // @harness id=C14 tier=quick unwind=16 timeout=2400 fs=4096 mem=24
+    // @desc a BFV ciphertext round-trips exactly through the FULL format (8 bytes per residue); announced size == bytes written == bytes consumed; a following object is recovered independently
+    // @bounds BFV N=2, q={97, 113}, size 2; all canonical residues except the seed-flag slot (concrete 42); coefficient form
+    // @funcs Ciphertext::{serialize_full,deserialize_full,serialized_full_size}
+    // @stubs HeContext::get_context_data -> linear search over the literal chain; alloc::sync::Arc::drop_slow -> no-op
+    #[kani::proof]
+    #[kani::stub(crate::context::HeContext::get_context_data, crate::context::verif_v::get_context_data_stub)]
+    #[kani::stub(alloc::sync::Arc::drop_slow, crate::verif_v::arc_drop_slow_noop)]
+    fn c14_ciphertext_roundtrip_full_format() {
+        let ctx = lits::ctx_bfv_n2_2p1();
+        let pid = *ctx.first_parms_id();
+        let r: [u8; 8] = kani::any();
+        let mut d = [0u64; 8]; let mut i = 0;
+        while i < 8 { kani::assume((r[i] as u64) < if (i / 2) % 2 == 0 { 97 } else { 113 }); d[i] = r[i] as u64; i += 1; }
+        d[4] = 42;                                  // seed-flag slot concrete (see bytes_case)
+        let ct = mk_ciphertext(2, 2, 2, d.to_vec(), pid, 1.0, false, 1);
+        let mut s = Sink::new();
+        let n = ct.serialize_full(&ctx, &mut s).unwrap();
+        let tail: u64 = kani::any(); tail.serialize(&mut s).unwrap();
+        kani::cover!(d[7] == 112);
+        assert!(n == ct.serialized_full_size(&ctx) && s.len == n + 8);
+        let mut rd = Src { buf: s.buf, pos: 0, end: s.len };
+        let back = Ciphertext::deserialize_full(&ctx, &mut rd).unwrap();
+        assert!(rd.pos == n);
+        assert!(same_ct(&ct, &back, 8));
+        assert!(u64::deserialize(&mut rd).unwrap() == tail);
+        std::mem::forget(ctx);
+    }
+
+    fn bytes_case(full: bool) {
         let ctx = lits::ctx_bfv_n2_bytes();
         let pid = *ctx.first_parms_id();
         let qs = [97u32, 12289, 65537];
         let r: [u32; 12] = kani::any();
         let mut d = [0u64; 12]; let mut i = 0;
         while i < 12 { kani::assume(r[i] < qs[(i / 2) % 3]); d[i] = r[i] as u64; i += 1; }
+        d[6] = 42;                                  // slot compared with CIPHERTEXT_SEED_FLAG: concrete, so that `contains_seed()` is decided during symbolic execution
         let ntt: bool = kani::any();
         let ct = mk_ciphertext(2, 3, 2, d.to_vec(), pid, 1.0, ntt, 1);
-        let full: bool = kani::any();
         let mut s = Sink::new();
         let n = if full { ct.serialize_full(&ctx, &mut s).unwrap() } else { ct.serialize(&ctx, &mut s).unwrap() };
         let announced = if full { ct.serialized_full_size(&ctx) } else { ct.serialized_size(&ctx) };
         let tail: u64 = kani::any(); tail.serialize(&mut s).unwrap();
-        kani::cover!(!full && d[5] > 70000 - 5000);
+        kani::cover!(d[5] > 70000 - 5000);
         assert!(n == announced && s.len == n + 8);
         if !full { assert!(n == 32 + 8 + 1 + 1 + 2 * (2 * 1 + 2 * 2 + 2 * 3)); }
         let mut rd = Src { buf: s.buf, pos: 0, end: s.len };
@@ -266,25 +297,42 @@ mod proofs {
         assert!(same_ct(&ct, &back, 12));
     }
 
-    // @harness id=C14 tier=quick unwind=16 timeout=3000 fs=4096
-    // @desc the selected-terms format restores exactly the selected coefficients of the first polynomial (others zero) and ALL coefficients of the remaining polynomials; announced size == bytes written == bytes consumed
-    // @bounds BFV N=2, q={97,113} coefficient form, size 2; term subsets {0}, {1}, {0,1} (symbolic choice, concrete per case); all canonical residues
+    // @harness id=C14 tier=quick unwind=16 timeout=2400 fs=4096
+    // @desc the selected-terms format restores exactly the selected coefficients of the first polynomial (others zero) and ALL coefficients of the remaining polynomials; announced size == bytes written == bytes consumed -- term subset {0}
+    // @bounds BFV N=2, q={97,113} coefficient form, size 2; term subset {0}; all canonical residues except the seed-flag slot (concrete 42)
     // @funcs Ciphertext::{serialize_terms,deserialize_terms,serialized_terms_size}
     // @stubs HeContext::get_context_data -> linear search over the literal chain; alloc::sync::Arc::drop_slow -> no-op
     #[kani::proof]
     #[kani::stub(crate::context::HeContext::get_context_data, crate::context::verif_v::get_context_data_stub)]
     #[kani::stub(alloc::sync::Arc::drop_slow, crate::verif_v::arc_drop_slow_noop)]
-    fn c14_ciphertext_terms_roundtrip() {
-        let ctx = lits::ctx_bfv_n2_2p1();
-        let c: u8 = kani::any();
-        match c { 0 => terms_case(&ctx, &[0]), 1 => terms_case(&ctx, &[1]), _ => terms_case(&ctx, &[0, 1]) }
-        std::mem::forget(ctx);
-    }
+    fn c14_ciphertext_terms_roundtrip_t0() { let ctx = lits::ctx_bfv_n2_2p1(); terms_case(&ctx, &[0]); std::mem::forget(ctx); }
+
+    // @harness id=C14 tier=quick unwind=16 timeout=2400 fs=4096
+    // @desc the selected-terms format restores exactly the selected coefficients of the first polynomial (others zero) and ALL coefficients of the remaining polynomials; announced size == bytes written == bytes consumed -- term subset {1}
+    // @bounds BFV N=2, q={97,113} coefficient form, size 2; term subset {1}; all canonical residues except the seed-flag slot (concrete 42)
+    // @funcs Ciphertext::{serialize_terms,deserialize_terms,serialized_terms_size}
+    // @stubs HeContext::get_context_data -> linear search over the literal chain; alloc::sync::Arc::drop_slow -> no-op
+    #[kani::proof]
+    #[kani::stub(crate::context::HeContext::get_context_data, crate::context::verif_v::get_context_data_stub)]
+    #[kani::stub(alloc::sync::Arc::drop_slow, crate::verif_v::arc_drop_slow_noop)]
+    fn c14_ciphertext_terms_roundtrip_t1() { let ctx = lits::ctx_bfv_n2_2p1(); terms_case(&ctx, &[1]); std::mem::forget(ctx); }
+
+    // @harness id=C14 tier=quick unwind=16 timeout=2400 fs=4096
+    // @desc the selected-terms format restores exactly the selected coefficients of the first polynomial (others zero) and ALL coefficients of the remaining polynomials; announced size == bytes written == bytes consumed -- term subset {0,1}
+    // @bounds BFV N=2, q={97,113} coefficient form, size 2; term subset {0,1}; all canonical residues except the seed-flag slot (concrete 42)
+    // @funcs Ciphertext::{serialize_terms,deserialize_terms,serialized_terms_size}
+    // @stubs HeContext::get_context_data -> linear search over the literal chain; alloc::sync::Arc::drop_slow -> no-op
+    #[kani::proof]
+    #[kani::stub(crate::context::HeContext::get_context_data, crate::context::verif_v::get_context_data_stub)]
+    #[kani::stub(alloc::sync::Arc::drop_slow, crate::verif_v::arc_drop_slow_noop)]
+    fn c14_ciphertext_terms_roundtrip_t01() { let ctx = lits::ctx_bfv_n2_2p1(); terms_case(&ctx, &[0, 1]); std::mem::forget(ctx); }
+
     fn terms_case(ctx: &std::sync::Arc<HeContext>, terms: &[usize]) {
         let pid = *ctx.first_parms_id();
         let r: [u8; 8] = kani::any();
         let mut d = [0u64; 8]; let mut i = 0;
         while i < 8 { kani::assume((r[i] as u64) < if (i / 2) % 2 == 0 { 97 } else { 113 }); d[i] = r[i] as u64; i += 1; }
+        d[4] = 42;                                  // seed-flag slot concrete (see bytes_case)
         let ct = mk_ciphertext(2, 2, 2, d.to_vec(), pid, 1.0, false, 1);
         let mut s = Sink::new();
         let n = ct.serialize_terms(ctx, terms, &mut s).unwrap();
@@ -294,8 +342,82 @@ mod proofs {
         assert!(rd.pos == n && back.size() == 2 && back.data().len() == 8 && !back.is_ntt_form());
         let i: usize = kani::any(); kani::assume(i < 8);
         let selected = i >= 4 || (terms.len() == 2) || (i % 2 == terms[0]);
-        kani::cover!(!selected && d[i] != 0);
+        kani::cover!(terms.len() == 2 || (!selected && d[i] != 0));
         assert!(back.data()[i] == if selected { d[i] } else { 0 });
+    }
+
+    // @harness id=C14 tier=quick unwind=16 timeout=1200 fs=4096
+    // @desc ciphertext containers (1-d, 2-d, 3-d) that are EMPTY or hold empty sub-containers: in the compact and the selected-terms format the announced size equals the bytes written and the bytes consumed, the restored container has the same shape, and a following object in the same stream is recovered independently
+    // @bounds Cipher1d [], Cipher2d [] and [[],[]], Cipher3d [] and [[[]]] ; tail object = arbitrary u64; term list {0}
+    // @funcs Cipher1d/Cipher2d/Cipher3d::{serialize,deserialize,serialized_size,serialize_terms,deserialize_terms,serialized_terms_size}
+    // @stubs HeContext::get_context_data -> linear search over the literal chain; alloc::sync::Arc::drop_slow -> no-op
+    #[kani::proof]
+    #[kani::stub(crate::context::HeContext::get_context_data, crate::context::verif_v::get_context_data_stub)]
+    #[kani::stub(alloc::sync::Arc::drop_slow, crate::verif_v::arc_drop_slow_noop)]
+    fn c14_empty_containers() {
+        use crate::app::matmul::{Cipher1d, Cipher2d};
+        use crate::app::matmul::cipher3d::Cipher3d;
+        let ctx = lits::ctx_bfv_n2_1p();
+        let tail: u64 = kani::any();
+        macro_rules! both_formats { ($mk:expr, $ty:ty, $shape:expr) => {{
+            // compact
+            let c = $mk; let mut s = Sink::new();
+            let n = c.serialize(&ctx, &mut s).unwrap(); tail.serialize(&mut s).unwrap();
+            assert!(n == c.serialized_size(&ctx) && s.len == n + 8);
+            let mut rd = Src { buf: s.buf, pos: 0, end: s.len };
+            let back = <$ty as SerializableWithHeContext>::deserialize(&ctx, &mut rd).unwrap();
+            assert!(rd.pos == n && $shape(&back) && u64::deserialize(&mut rd).unwrap() == tail);
+            // selected terms
+            let mut s = Sink::new();
+            let n = c.serialize_terms(&ctx, &[0], &mut s).unwrap(); tail.serialize(&mut s).unwrap();
+            assert!(n == c.serialized_terms_size(&ctx, 1) && s.len == n + 8);
+            let mut rd = Src { buf: s.buf, pos: 0, end: s.len };
+            let back = <$ty>::deserialize_terms(&ctx, &[0], &mut rd).unwrap();
+            assert!(rd.pos == n && $shape(&back) && u64::deserialize(&mut rd).unwrap() == tail);
+        }}}
+        both_formats!(Cipher1d::new(vec![]), Cipher1d, |b: &Cipher1d| b.len() == 0);
+        both_formats!(Cipher2d::new_1ds(vec![]), Cipher2d, |b: &Cipher2d| b.data.len() == 0);
+        both_formats!(Cipher2d::new_1ds(vec![Cipher1d::new(vec![]), Cipher1d::new(vec![])]), Cipher2d, |b: &Cipher2d| b.data.len() == 2 && b.data[0].len() == 0 && b.data[1].len() == 0);
+        both_formats!(Cipher3d::new_2ds(vec![]), Cipher3d, |b: &Cipher3d| b.data.len() == 0);
+        both_formats!(Cipher3d::new_2ds(vec![Cipher2d::new_1ds(vec![Cipher1d::new(vec![])])]), Cipher3d, |b: &Cipher3d| b.data.len() == 1 && b.data[0].data.len() == 1 && b.data[0].data[0].len() == 0);
+        kani::cover!(true);
+        std::mem::forget(ctx);
+    }
+
+    // @harness id=C14 tier=quick unwind=16 timeout=2400 fs=4096
+    // @desc a 1-d container holding one ciphertext round-trips in the compact and the selected-terms format (length prefix + element), sizes announced == written == consumed, following object recovered
+    // @bounds BFV N=2, q={97}, size-2 ciphertext, all canonical residues except the seed-flag slot (concrete 42); terms {0}
+    // @funcs Cipher1d::{serialize,deserialize,serialized_size,serialize_terms,deserialize_terms,serialized_terms_size}, Ciphertext serializers
+    // @stubs HeContext::get_context_data -> linear search over the literal chain; alloc::sync::Arc::drop_slow -> no-op
+    #[kani::proof]
+    #[kani::stub(crate::context::HeContext::get_context_data, crate::context::verif_v::get_context_data_stub)]
+    #[kani::stub(alloc::sync::Arc::drop_slow, crate::verif_v::arc_drop_slow_noop)]
+    fn c14_container_single_element() {
+        use crate::app::matmul::Cipher1d;
+        let ctx = lits::ctx_bfv_n2_1p();
+        let pid = *ctx.first_parms_id();
+        let r: [u8; 4] = kani::any(); kani::assume(r[0] < 97 && r[1] < 97 && r[3] < 97);
+        let d = [r[0] as u64, r[1] as u64, 42, r[3] as u64];
+        let c = Cipher1d::new(vec![mk_ciphertext(2, 1, 2, d.to_vec(), pid, 1.0, false, 1)]);
+        let tail: u64 = kani::any();
+        let mut s = Sink::new();
+        let n = c.serialize(&ctx, &mut s).unwrap(); tail.serialize(&mut s).unwrap();
+        assert!(n == c.serialized_size(&ctx) && s.len == n + 8);
+        let mut rd = Src { buf: s.buf, pos: 0, end: s.len };
+        let back = <Cipher1d as SerializableWithHeContext>::deserialize(&ctx, &mut rd).unwrap();
+        assert!(rd.pos == n && back.len() == 1 && u64::deserialize(&mut rd).unwrap() == tail);
+        let b0 = back.iter().next().unwrap();
+        assert!(b0.data().len() == 4 && b0.data()[0] == d[0] && b0.data()[1] == d[1] && b0.data()[2] == 42 && b0.data()[3] == d[3]);
+        let mut s = Sink::new();
+        let n = c.serialize_terms(&ctx, &[0], &mut s).unwrap(); tail.serialize(&mut s).unwrap();
+        assert!(n == c.serialized_terms_size(&ctx, 1) && s.len == n + 8);
+        let mut rd = Src { buf: s.buf, pos: 0, end: s.len };
+        let back = Cipher1d::deserialize_terms(&ctx, &[0], &mut rd).unwrap();
+        assert!(rd.pos == n && back.len() == 1 && u64::deserialize(&mut rd).unwrap() == tail);
+        let b0 = back.iter().next().unwrap();
+        kani::cover!(d[1] != 0);
+        assert!(b0.data().len() == 4 && b0.data()[0] == d[0] && b0.data()[1] == 0 && b0.data()[2] == 42 && b0.data()[3] == d[3]);
+        std::mem::forget(ctx);
     }
 
     // @harness id=C15 tier=quick unwind=24 timeout=3000 fs=4096 mem=24
@@ -315,7 +437,7 @@ mod proofs {
     fn faulty_case(ctx: &std::sync::Arc<HeContext>, limit: usize) {
         let pid = *ctx.first_parms_id();
         let r: [u8; 4] = kani::any(); kani::assume(r[0] < 97 && r[1] < 97 && r[2] < 97 && r[3] < 97);
-        let ct = mk_ciphertext(2, 1, 2, vec![r[0] as u64, r[1] as u64, r[2] as u64, r[3] as u64], pid, 1.0, false, 1);
+        let ct = mk_ciphertext(2, 1, 2, vec![r[0] as u64, r[1] as u64, 42 /* seed-flag slot concrete */, r[3] as u64], pid, 1.0, false, 1);
         let fail_at: usize = kani::any();
         let mut w = ShortWriter { buf: [0; 128], len: 0, calls: 0, limit, fail_at };
         let res = ct.serialize(ctx, &mut w);
